@@ -2158,6 +2158,11 @@ impl Interpreter {
                             if let Some(env_data) = env_ref.as_environment() {
                                 let var_key = VarKey(binding_name.cheap_clone());
                                 if let Some(binding) = env_data.bindings.get(&var_key) {
+                                    // An exported import (`import { x } from "./m"; export { x };`)
+                                    // reads through to the module it was imported from
+                                    if let Some(ref import_binding) = binding.import_binding {
+                                        return self.resolve_import_binding(import_binding);
+                                    }
                                     return Ok(binding.value.clone());
                                 }
                             }
@@ -4050,6 +4055,11 @@ impl Interpreter {
                 if let Some(env_data) = env_ref.as_environment() {
                     let key = VarKey(binding_name.cheap_clone());
                     if let Some(binding) = env_data.bindings.get(&key) {
+                        // An exported import reads through to the module it was imported from
+                        if let Some(ref import_binding) = binding.import_binding {
+                            let value = self.resolve_import_binding(import_binding)?;
+                            return Ok(Guarded::unguarded(value));
+                        }
                         return Ok(Guarded::unguarded(binding.value.clone()));
                     }
                 }
